@@ -296,7 +296,18 @@ class Tensor(object):
     def detach(self):
         t = self._like()
         t.name = self.name
+        t._storage_token = self._storage()     # a detached tensor shares the memory of its source
         return t
+
+    def _storage(self):
+        tok = getattr(self, "_storage_token", None)
+        if tok is None:
+            tok = self._storage_token = object()
+        return tok
+
+    def data_ptr(self):
+        """address of the memory: equal for a tensor and what was detached from it, different for clones / new results"""
+        return id(self._storage())
 
     @property
     def data(self):
